@@ -117,6 +117,6 @@ REVERTS = [
  ("57a3726", ["C18"]), ("82ed14d", ["C18"]), ("b5c376c", ["C15"]), ("c78e68d", ["C15"]), ("f393148", ["C15"]),
  ("5af7571", ["C09", "C11", "C08"]), ("c87903f", ["C08", "C16"]), ("5c3209c", ["C02", "C03", "C04"]), ("b36a269", ["C02", "C03"]),
  ("8d84c6d", ["C02", "C03"]), ("3838687", ["C02", "C03"]), ("fbe9243", ["C04", "C10"]), ("8929b8c", ["C06", "C12"]), ("aa6c6eb", ["C11"]),
- ("d465690", ["C11"]), ("f767220", ["C10", "C11", "C15"]), ("e0c2cb8", ["C07", "C16"]), ("7c88e22", ["C07", "C12"]),
+ ("d465690", ["C11"]), ("f767220", ["C10", "C11", "C15"]), ("e0c2cb8", ["C07", "C16"]), ("7c88e22", ["C07", "C12"]), ("617124b", ["C07"]),
 ]
 main()
